@@ -72,8 +72,16 @@ Fixpoint nodup_b {X} (eqb : X -> X -> bool) (l : list X) : bool :=
   match l with [] => true | x :: r => negb (existsb (eqb x) r) && nodup_b eqb r end.
 Fixpoint incr_b (l : list Z) : bool :=
   match l with x :: ((y :: _) as r) => (x <? y) && incr_b r | _ => true end.
-Definition is_float (v : value) : bool := match v with VFloat _ => true | _ => false end.
-Definition file_ok (c : mfile) : bool := negb (existsb is_float (file_keys c)).
+(* Python dictionaries identify the keys 3 and 3.0 and never find a NaN key again; the model
+   compares keys structurally, so cluster-id cells that read as an integral float or as NaN are
+   outside its regime (other float ids, e.g. 3.5, are ordinary keys) *)
+Definition bad_key (v : value) : bool :=
+  match v with
+  | VFloat (TNum m e) => 0 <=? e
+  | VFloat TNaN => true
+  | _ => false
+  end.
+Definition file_ok (c : mfile) : bool := negb (existsb bad_key (file_keys c)).
 
 Definition op_ok (r : rest) (o : op) : bool :=
   match o with
